@@ -496,6 +496,29 @@ class C03Gen(langgen.Gen):
         lines.append("%sshout(%s)" % (pad, x))
         return lines
 
+    # ---- a callee that mutates / index-assigns a captured array after the caller stored a new array
+    def t_callee_mutates_array(self, ind):
+        if not self.can_fn():
+            return None
+        r, pad = self.r, "  " * ind
+        a, f = self.fresh("v"), self.fresh("f")
+        lines = ["%smake %s get [%s]" % (pad, a, self.lit(STR))]
+        self.declare(a, ARR, elem=STR, minlen=1)
+        mut = r.choice(["%s.push(%s)" % (a, self.lit(STR)), "%s[0] get %s" % (a, self.lit(STR)), "%s.reverse()" % a,
+                        "if to say (c) start %s.push(%s) end" % (a, self.lit(STR)), "make t get %s.pop()" % a])
+        lines += ["%sdo %s(c) start" % (pad, f), "%s  %s" % (pad, mut), "%s  return 0" % pad, "%send" % pad,
+                  "%s%s get [%s, %s]" % (pad, a, self.lit(STR), self.lit(STR))]
+        call = r.choice(["%s(true)" % f, "make %s get %s(%s)" % (self.fresh("u"), f, r.choice(["true", "false"])), "shout(%s(false))" % f])
+        form = r.randrange(3)
+        if form == 0:
+            lines += ["%sif to say (%s) start" % (pad, r.choice(["true", "false"])), "%s  %s" % (pad, call), "%send" % pad]
+        elif form == 1:
+            lines += ["%sif to say (false) start shout(%s) end" % (pad, self.lit(NUM)), pad + call]
+        else:
+            lines.append(pad + call)
+        lines.append("%sshout(%s)" % (pad, a))
+        return lines
+
     # ---- a statement that reads and writes the same variable, the earlier store in a preceding block
     def t_self_update_direct(self, ind):
         r, pad = self.r, "  " * ind
